@@ -2,6 +2,7 @@ import TunnoxModel.Proofs.C14Trace
 import TunnoxModel.Proofs.C14List
 import TunnoxModel.Proofs.C14Fresh
 import TunnoxModel.Proofs.C14Nodes
+import TunnoxModel.Proofs.C14Excl
 /-!
 # C14 — the tiered store never serves stale data or loses concurrent list updates
 
@@ -292,6 +293,65 @@ theorem C14_two_node_shared (h : Storage) (key : String) (hwf : WFStorage h) (hs
   have := C14_fresh _ c s p ops sch wf hco
   rw [e1, e2, e3]
   exact ⟨this, this⟩
+
+/-! ## Read-modify-write calls are exclusive
+
+Full statement (the predicate `holdsExclusive` is part of what the runner applies, `holdsAll`):
+
+    theorem C14_exclusive : ∀ R c s p ops sch, WF R ops sch →
+        holdsExclusive (model .repaired R c s p ops sch).ths (model .repaired R c s p ops sch).trace = true
+
+i.e. in every run of one node, between the tier read and the last tier write of an AppendToList /
+RemoveFromList / SetExpiration no Get/GetList/Set/SetList/Delete/Append/Remove/SetExpiration of another
+caller performs a successful tier write.  Proved below: the local half (`_partial`) — every such write is
+performed at a step that takes, or already holds, the per-key lock, for every program point, state, fault
+and route — which together with `enabled` (a step that needs the lock runs only when nobody else holds it)
+is what excludes the interleaving; the lifting to whole traces (the lock holder's span in the trace) is not
+proved here and is covered by the correspondence runs (stream rmw-vs-write: every interleaving of a
+read-modify-write call with a plain Set/SetList/Delete, every category and deployment). -/
+
+/-- Local half of `C14_exclusive`: a tier write of a lock-guarded call needs the key lock free, or happens
+inside the critical section. -/
+theorem C14_exclusive_step_partial (R : Route) (tid : Nat) (ft : Option Tier) (σ : St) (th : Thread) :
+    ∀ e ∈ (stepThread true R tid ft σ th).evs, isGuardedOp th.op = true → isWriteAct e.act = true →
+      needsLock th.op th.pc = true ∨ inCSpc th.pc = true :=
+  write_needs_lock R tid ft σ th
+
+/-- … and such a step is not enabled while another caller holds the lock. -/
+theorem C14_exclusive_blocked (σ : St) (tid other : Nat) (th : Thread)
+    (hl : σ.lock = some other) (hne : other ≠ tid) (hn : needsLock th.op th.pc = true) :
+    enabled true σ tid th = false := by
+  unfold enabled
+  simp [hn, hl, hne]
+
+/-- The model of the repaired code on the seed's schedule shape (append reads, a Delete is scheduled, append
+writes): the Delete is blocked until the append has written; the clause holds, the list ends deleted. -/
+example :
+    holdsExclusive
+      (model .repaired (route (defaultStorage false false) "tunnox:session:k1") (some (.list [1, 2])) none none
+        [.app 7, .del] [⟨0, none, none⟩, ⟨1, none, none⟩, ⟨0, none, none⟩, ⟨1, none, none⟩]).ths
+      (model .repaired (route (defaultStorage false false) "tunnox:session:k1") (some (.list [1, 2])) none none
+        [.app 7, .del] [⟨0, none, none⟩, ⟨1, none, none⟩, ⟨0, none, none⟩, ⟨1, none, none⟩]).trace = true ∧
+    (model .repaired (route (defaultStorage false false) "tunnox:session:k1") (some (.list [1, 2])) none none
+        [.app 7, .del] [⟨0, none, none⟩, ⟨1, none, none⟩, ⟨0, none, none⟩, ⟨1, none, none⟩]).fget = .nf := by
+  decide +kernel
+
+/-- Without the key lock (the as-found variant has none) the same schedule violates the clause: the
+completed Delete is overwritten by the append's older snapshot. -/
+theorem C14_exclusive_witness :
+    holdsExclusive
+      (model .asFound (route (defaultStorage false false) "tunnox:session:k1") (some (.list [1, 2])) none none
+        [.app 7, .del] [⟨0, none, none⟩, ⟨1, none, none⟩, ⟨0, none, none⟩]).ths
+      (model .asFound (route (defaultStorage false false) "tunnox:session:k1") (some (.list [1, 2])) none none
+        [.app 7, .del] [⟨0, none, none⟩, ⟨1, none, none⟩, ⟨0, none, none⟩]).trace = false := by
+  decide +kernel
+
+/-- The clause rejects the observation of the seeded regression (a TTL touch that re-wrote `s1` over a
+completed `Set(s5)`). -/
+example : holdsExclusive
+    [⟨.exp 7, 1, 3, some .ok⟩, ⟨.set (.str 5) 0, 2, 2, some .ok⟩]
+    [⟨0, .cache, .get, .hit (.str 1)⟩, ⟨1, .cache, .set (.str 5) 9, .ok⟩, ⟨0, .cache, .set (.str 1) 7, .ok⟩] = false := by
+  decide
 
 /-! ## Witnesses: the code as found, and the recorded findings -/
 
